@@ -177,54 +177,62 @@ Definition finish (st : store) (left right root : bytes) (b : batch) (i h : nat)
 (** what the caller sees of the batch: its own batch if the callee was a batch root *)
 Definition ret_batch (h : nat) (cb b : batch) : batch := if Nat.eqb (h mod 4) 0 then cb else b.
 
-(** the body of Trie.update after loadChildren; [rec] is the call one level down, [b]/[i'] the
-    batch and index returned by loadChildren, [h] the current height (> 0) *)
+(** Trie.update after the shortcut handling: store-as-shortcut, splitKeys,
+    updateLeft / updateRight / updateParallel; [rec] is the call one level down *)
+Definition bgo (rec : store -> bytes -> Model.batch bytes -> batch -> nat -> list bool -> option (store * batch * bytes * bool))
+  (h : nat) (st1 : store) (root : bytes) (kvs1 : Model.batch bytes) (b1 : batch) (i' : nat)
+  (lnode rnode : bytes) (rp : list bool) : option (store * batch * bytes * bool) :=
+  match lnode, rnode, kvs1 with
+  | [], [], [(k, None)] => Some (st1, b1, [], true)
+  | [], [], [(k, Some v)] =>
+      let '(st2, b2, n) := leaf_hash_b st1 (bits_to_bytes (rev_append rp k)) v root b1 i' h in Some (st2, b2, n, false)
+  | _, _, _ =>
+    let '(lk, rk) := split_keys kvs1 in
+    let lb := map strip lk in let rb := map strip rk in
+    match lb, rb with
+    | [], [] => None
+    | [], _ =>
+        match rec st1 rnode rb b1 (2 * i' + 2) (true :: rp) with
+        | None => None
+        | Some (st2, b2, rn, d) => finish st2 lnode rn root b2 i' h d
+        end
+    | _, [] =>
+        match rec st1 lnode lb b1 (2 * i' + 1) (false :: rp) with
+        | None => None
+        | Some (st2, b2, ln, d) => finish st2 ln rnode root b2 i' h d
+        end
+    | _, _ =>
+        match rec st1 lnode lb b1 (2 * i' + 1) (false :: rp) with
+        | None => None
+        | Some (st2, b2, ln, dl) =>
+            match rec st2 rnode rb b2 (2 * i' + 2) (true :: rp) with
+            | None => None
+            | Some (st3, b3, rn, dr) => finish st3 ln rn root b3 i' h (dl || dr)
+            end
+        end
+    end
+  end.
+
+(** the body of Trie.update after loadChildren; [b]/[i'] are the batch and index returned by
+    loadChildren, [h] the current height (> 0) *)
 Definition bbody (rec : store -> bytes -> Model.batch bytes -> batch -> nat -> list bool -> option (store * batch * bytes * bool))
   (h : nat) (st : store) (root : bytes) (kvs : Model.batch bytes) (b : batch) (i' : nat)
   (lnode0 rnode0 : bytes) (sc : bool) (rp : list bool) : option (store * batch * bytes * bool) :=
-  let keyb (k : key) := bits_to_bytes (rev_append rp k) in
-  (* the shortcut case *)
-  let '(st1, b1, lnode, rnode, kvs1) :=
-    if sc then
-      let sk := skipn (length rp) (bytes_to_bits (hash_of lnode0)) in
-      let kvs' := masc sk (hash_of rnode0) kvs in
-      let st' := if Nat.eqb i' 0 then delete_old_node atomic st root false else st in
-      (st', bset (bset b (2 * i' + 1) []) (2 * i' + 2) [], @nil N, @nil N, kvs')
-    else (st, b, lnode0, rnode0, kvs) in
-  match kvs1 with
-  | [] => if sc then Some (st1, b1, [], true) else None       (* keys = []: Go would panic *)
-  | _ =>
-    match lnode, rnode, kvs1 with
-    | [], [], [(k, None)] => Some (st1, b1, [], true)
-    | [], [], [(k, Some v)] =>
-        let '(st2, b2, n) := leaf_hash_b st1 (keyb k) v root b1 i' h in Some (st2, b2, n, false)
-    | _, _, _ =>
-      let '(lk, rk) := split_keys kvs1 in
-      let lb := map strip lk in let rb := map strip rk in
-      match lb, rb with
-      | [], [] => None
-      | [], _ =>
-          match rec st1 rnode rb b1 (2 * i' + 2) (true :: rp) with
-          | None => None
-          | Some (st2, b2, rn, d) => finish st2 lnode rn root b2 i' h d
-          end
-      | _, [] =>
-          match rec st1 lnode lb b1 (2 * i' + 1) (false :: rp) with
-          | None => None
-          | Some (st2, b2, ln, d) => finish st2 ln rnode root b2 i' h d
-          end
-      | _, _ =>
-          match rec st1 lnode lb b1 (2 * i' + 1) (false :: rp) with
-          | None => None
-          | Some (st2, b2, ln, dl) =>
-              match rec st2 rnode rb b2 (2 * i' + 2) (true :: rp) with
-              | None => None
-              | Some (st3, b3, rn, dr) => finish st3 ln rn root b3 i' h (dl || dr)
-              end
-          end
-      end
+  if sc then
+    (* the node is a shortcut: add its pair to the keys, clear its two cells *)
+    let sk := skipn (length rp) (bytes_to_bits (hash_of lnode0)) in
+    let kvs1 := masc sk (hash_of rnode0) kvs in
+    let st1 := if Nat.eqb i' 0 then delete_old_node atomic st root false else st in
+    let b1 := bset (bset b (2 * i' + 1) []) (2 * i' + 2) [] in
+    match kvs1 with
+    | [] => Some (st1, b1, [], true)
+    | _ => bgo rec h st1 root kvs1 b1 i' [] [] rp
     end
-  end.
+  else
+    match kvs with
+    | [] => None                                             (* keys = []: Go would panic *)
+    | _ => bgo rec h st root kvs b i' lnode0 rnode0 rp
+    end.
 
 Fixpoint bupdate (h : nat) (st : store) (root : bytes) (kvs : Model.batch bytes)
   (cb : batch) (i : nat) (rp : list bool) {struct h} : option (store * batch * bytes * bool) :=
